@@ -846,7 +846,7 @@ fn uneven_cases(bed: bool) -> Vec<FileCase> {
 /// than the pipeline's channels hold (130), through every source, both passes, two runtimes
 fn many_cases(bed: bool, quick: bool) -> Vec<FileCase> {
     let mut v = vec![];
-    let ns: &[u32] = if quick { &[6, 130, 257] } else { &[6, 8, 101, 102, 130, 256, 257, 300] };
+    let ns: &[u32] = if quick { &[6, 130, 256, 257] } else { &[6, 8, 101, 102, 130, 256, 257, 300, 512] };
     for &n in ns {
         for src in [SrcKind::Iter, SrcKind::SerialText, SrcKind::ParallelFile] {
             for two_pass in [false, true] {
@@ -864,6 +864,12 @@ fn many_cases(bed: bool, quick: bool) -> Vec<FileCase> {
                             let mut ok = o.clone();
                             ok.src = src;
                             v.push(if bed { FileCase::BedKaryo { n: n.max(40), opts: ok } } else { FileCase::WigKaryo { n: n.max(40), opts: ok } });
+                        }
+                        if n >= 256 && rt == Rt::Current {
+                            // the default index fan-out: one child node of the root spans 256 chromosomes
+                            let mut wide = o.clone();
+                            wide.bs = 256;
+                            v.push(if bed { FileCase::BedMany { n, opts: wide } } else { FileCase::WigMany { n, opts: wide } });
                         }
                         v.push(if bed { FileCase::BedMany { n, opts: o } } else { FileCase::WigMany { n, opts: o } });
                     }
